@@ -601,8 +601,16 @@ def do_backup(options):
         do_full_backup(options)
         return
     srcsz = os.path.getsize(options.file)
-    if options.quick:
+    quick = options.quick
+    if quick:
         fn, startpos, endpos, sum = scandat(repofiles)
+        if startpos is not None and startpos == endpos:
+            # The last incremental is empty (it was written while the only
+            # new bytes belonged to a transaction in progress).  The md5 of
+            # an empty range matches whatever the file holds now, so it
+            # cannot tell whether the file was packed: compare everything.
+            quick = False
+    if quick:
         # If the .dat file was missing, or was empty, do a full backup
         if (fn, startpos, endpos, sum) == (None, None, None, None):
             log('missing or empty .dat file (full backup)')
